@@ -150,16 +150,20 @@ pub fn truthiness_may_be_static(e: &Expr) -> bool {
     }
 }
 
+/// built from literals and operators only; `math.<f>(literal trees)` counts as literal because
+/// convert_square_root_call turns `math.sqrt(x)` into `x ^ 0.5`, which a folder then evaluates
 fn literal_tree(e: &Expr) -> bool {
-    let mut ok = true;
-    walk_expr(e, false, &mut |n| {
-        if let Node::Expr { e, .. } = n {
-            if matches!(e, Expr::Name(_) | Expr::Call { .. } | Expr::MethodCall { .. } | Expr::Index { .. } | Expr::Field { .. } | Expr::Vararg) {
-                ok = false;
-            }
+    match e {
+        Expr::Nil | Expr::True | Expr::False | Expr::Number { .. } | Expr::Str { .. } => true,
+        Expr::Paren(a) | Expr::Unary(_, a) => literal_tree(a),
+        Expr::Binary(_, a, b) => literal_tree(a) && literal_tree(b),
+        Expr::Call { f, args, .. } => {
+            matches!(&**f, Expr::Field { obj, .. } if matches!(&**obj, Expr::Name(n) if n == "math")) && args.iter().all(literal_tree)
         }
-    });
-    ok
+        Expr::Table(items) => items.is_empty(),
+        Expr::Cast { expr, .. } => literal_tree(expr),
+        _ => false,
+    }
 }
 
 fn multi_spine(e: &Expr) -> bool {
